@@ -220,6 +220,12 @@ def consumed (es : List Edge) (nodes keys : List Nat) (r : Rates) (f : Nat → R
   | some s => s.2
   | none => 0
 
+/-- the infected keys of `I_old` after sweeps `1 .. T-1` (what `I_old = I_new.copy()` holds at the end of each
+sweep; repeated once nobody is infected) -/
+def infectedSets (es : List Edge) (nodes keys : List Nat) (r : Rates) (f : Nat → Rat)
+    (I0 : Nat → Bool) (T : Nat) : List (List Nat) :=
+  (runStates es nodes keys r f (T - 1) I0 0).map (fun s => keys.filter s.1)
+
 /-- the deterministic spreading named by the property: a susceptible node becomes infected when
 `β = 1` and a pairwise neighbour is infected, or `β_D = 1` and both other members of a 3-node
 hyperedge are infected; an infected node recovers iff `μ = 1`; nodes outside `nodes` keep their
@@ -240,5 +246,63 @@ def spreadCounts (es : List Edge) (nodes keys : List Nat) (r : Rates) : Nat → 
   | n + 1, I =>
     if infected keys I = 0 then List.replicate (n + 1) 0
     else infected keys (spread es nodes r I) :: spreadCounts es nodes keys r n (spread es nodes r I)
+
+/-! ## extension round: matrix powers, the inverse-cdf sampler, the `np.isclose` assertion -/
+
+/-- an `N × N` table `f i j` as a list of rows (a dense numpy matrix) -/
+def table (N : Nat) (f : Nat → Nat → Rat) : List (List Rat) :=
+  (List.range N).map (fun i => (List.range N).map (fun j => f i j))
+
+/-- `A[i][j]` (`0` outside the table) -/
+def at2 (A : List (List Rat)) (i j : Nat) : Rat := (A.getD i []).getD j 0
+
+/-- the dense matrix `K` -/
+def kMat (es : List Edge) (N : Nat) : List (List Rat) := table N (kEntry es N)
+
+/-- `A @ B` for `N × N` tables -/
+def matMul (N : Nat) (A B : List (List Rat)) : List (List Rat) :=
+  table N (fun i j => sumTo N (fun k => at2 A i k * at2 B k j))
+
+/-- `K ** t` (`np.linalg.matrix_power(K, t)`): `K⁰ = I`, `K^(t+1) = K @ K^t` -/
+def kPowMat (es : List Edge) (N : Nat) : Nat → List (List Rat)
+  | 0 => table N (fun i j => if i = j then 1 else 0)
+  | t + 1 => matMul N (kMat es N) (kPowMat es N t)
+
+/-- entry `(i, j)` of `K ** t` -/
+def kPow (es : List Edge) (N t i j : Nat) : Rat := at2 (kPowMat es N t) i j
+
+/-- `v @ P` for a vector and an `N × N` table -/
+def vecMat (N : Nat) (v : List Rat) (P : List (List Rat)) : List Rat :=
+  (List.range N).map (fun j => sumTo N (fun i => vecOf v i * at2 P i j))
+
+/-- `s @ (K ** t)`: the density after `t` steps in closed form -/
+def densityAt (es : List Edge) (N t : Nat) (v : List Rat) : List Rat := vecMat N v (kPowMat es N t)
+
+/-- `np.isclose(x, 1)` with the default tolerances: `|x − 1| ≤ atol + rtol·|1|`, `atol = 1e-8`, `rtol = 1e-5` -/
+def closeToOne (x : Rat) : Bool :=
+  decide (x - 1 ≤ 1001 / 100000000) && decide (1 - x ≤ 1001 / 100000000)
+
+/-- `random_walk_density(HG, s, time)` with both of its assertions: `none` = `AssertionError`
+(`np.isclose(np.sum(s), 1)` fails, or the hypergraph is not connected) -/
+def randomWalkDensity (es : List Edge) (N : Nat) (s : List Rat) (time : Nat) : Option (List (List Rat)) :=
+  if closeToOne s.sum then
+    (if connectedB es N then some (densityList es N time s) else none)
+  else none
+
+/-- `cdf.searchsorted(u, side='right')` for `cdf = p.cumsum()`: the first index `j` (from `j`, with `acc = cdf[j-1]`)
+whose cumulative sum exceeds `u`; `n` = number of entries left (past the end: the length, as numpy does) -/
+def chooseFrom (p : Nat → Rat) (u : Rat) : Nat → Nat → Rat → Nat
+  | 0, j, _ => j
+  | n + 1, j, acc => if u < acc + p j then j else chooseFrom p u n (j + 1) (acc + p j)
+
+/-- `np.random.choice(N, p=p)` as a function of its single uniform draw `u = random_sample()` (legacy
+`RandomState.choice`: `cdf = p.cumsum(); cdf /= cdf[-1]; idx = cdf.searchsorted(u, side='right')`; the division is
+by `1` for a probability vector) -/
+def chooseIdx (p : Nat → Rat) (N : Nat) (u : Rat) : Nat := chooseFrom p u N 0 0
+
+/-- `random_walk` as a function of the uniform draws behind `np.random.choice`: one draw per step -/
+def walkU (es : List Edge) (N : Nat) : Nat → List Rat → List Nat
+  | cur, [] => [cur]
+  | cur, u :: us => cur :: walkU es N (chooseIdx (kEntry es N cur) N u) us
 
 end C18
